@@ -35,59 +35,69 @@ fn main() {
         (false, true) => vec![1, 2, 3, 4, 17, 24, 32],
         (true, true) => (1..=32).collect(),
     };
-    let n = arities.len();
+    // An archetype = (type name, field name, columns in DECLARED order as indices into COLS). Besides the prefix
+    // archetypes (arity n = the first n columns) there are two with permuted orders: a zero-sized column first,
+    // and the Key column last (the harness finds the Key through KEYPOS, not by position 0).
+    let mut specs: Vec<(String, String, Vec<usize>)> = arities.iter().map(|ar| (ARCHS[ar - 1].0.to_string(), ARCHS[ar - 1].1.to_string(), (0..*ar).collect())).collect();
+    specs.push(("Zfr".into(), "zfr".into(), vec![1, 0, 2]));
+    specs.push(("Pfr".into(), "pfr".into(), vec![2, 13, 0]));
+    let n = specs.len();
     let mut s = String::new();
 
     // ---- world declaration ----
     s.push_str("ecs_world! {\n    ecs_name!(W);\n");
-    for (a, ar) in arities.iter().enumerate() {
+    for (a, (name, _, cols)) in specs.iter().enumerate() {
         if a == 0 {
             s.push_str("    #[archetype_id(5)]\n");
         }
         if a == 3 {
-            // ids continue from 200 (non-contiguous on purpose)
+            // ids continue from 200 (non-contiguous on purpose, and >= 128)
             s.push_str("    #[archetype_id(200)]\n");
         }
-        write!(s, "    ecs_archetype!({}", ARCHS[ar - 1].0).unwrap();
-        for c in 0..*ar {
-            write!(s, ", {}", COLS[c].0).unwrap();
+        write!(s, "    ecs_archetype!({}", name).unwrap();
+        for c in cols {
+            write!(s, ", {}", COLS[*c].0).unwrap();
         }
         s.push_str(");\n");
     }
     s.push_str("}\n\n");
 
     // ---- per-archetype implementations ----
-    for (a, ar) in arities.iter().enumerate() {
-        write!(s, "impl_arch!({}, {}, {}, {}, [", ARCHS[ar - 1].0, ARCHS[ar - 1].1, a, ar).unwrap();
-        for c in 0..*ar {
-            write!(s, "({}, {}, {}), ", COLS[c].0, COLS[c].1, c).unwrap();
+    for (a, (name, field, cols)) in specs.iter().enumerate() {
+        let keypos = cols.iter().position(|c| *c == 0).unwrap();
+        write!(s, "impl_arch!({}, {}, {}, {}, {}, [", name, field, a, cols.len(), keypos).unwrap();
+        for (i, c) in cols.iter().enumerate() {
+            write!(s, "({}, {}, {}), ", COLS[*c].0, COLS[*c].1, i).unwrap();
         }
         s.push_str("]);\n");
     }
 
-    // ---- dispatch ----
+    // ---- tables ----
     writeln!(s, "pub const NARCH: usize = {};", n).unwrap();
-    s.push_str("pub const ARCH_NAMES: [&str; NARCH] = [");
-    for ar in &arities {
-        write!(s, "\"{}\", ", ARCHS[ar - 1].0).unwrap();
+    writeln!(s, "pub const ARCH_NAMES: [&str; NARCH] = {:?};", specs.iter().map(|x| x.0.clone()).collect::<Vec<_>>()).unwrap();
+    writeln!(s, "/// number of columns of every archetype").unwrap();
+    writeln!(s, "pub const ARITIES: [usize; NARCH] = {:?};", specs.iter().map(|x| x.2.len()).collect::<Vec<_>>()).unwrap();
+    writeln!(s, "/// position of the Key column in the declared order").unwrap();
+    writeln!(s, "pub const KEYPOS: [usize; NARCH] = {:?};", specs.iter().map(|x| x.2.iter().position(|c| *c == 0).unwrap()).collect::<Vec<_>>()).unwrap();
+    writeln!(s, "/// tracked columns (Key = 0, Trk = 14) and zero-sized Drop columns (Zed = 1) per archetype").unwrap();
+    writeln!(s, "pub const TRACKED: [i64; NARCH] = {:?};", specs.iter().map(|x| x.2.iter().filter(|c| **c == 0 || **c == 14).count() as i64).collect::<Vec<_>>()).unwrap();
+    writeln!(s, "pub const ZEDS: [i64; NARCH] = {:?};", specs.iter().map(|x| x.2.iter().filter(|c| **c == 1).count() as i64).collect::<Vec<_>>()).unwrap();
+    writeln!(s, "/// for each archetype: global column id (index into the column list) of every declared position").unwrap();
+    s.push_str("pub const COLMAP: [&[u8]; NARCH] = [");
+    for x in &specs {
+        write!(s, "&{:?}, ", x.2.iter().map(|c| *c as u8).collect::<Vec<_>>()).unwrap();
     }
     s.push_str("];\n");
-    writeln!(s, "pub const ARITIES: [usize; NARCH] = {:?};", arities).unwrap();
     s.push_str("macro_rules! with_arch {\n    ($idx:expr, $A:ident => $body:expr) => {\n        match $idx {\n");
-    for (a, ar) in arities.iter().enumerate() {
-        writeln!(
-            s,
-            "            {} => {{ type $A = $crate::world::{}; $body }}",
-            a, ARCHS[ar - 1].0
-        )
-        .unwrap();
+    for (a, x) in specs.iter().enumerate() {
+        writeln!(s, "            {} => {{ type $A = $crate::world::{}; $body }}", a, x.0).unwrap();
     }
     s.push_str("            _ => unreachable!(\"bad archetype index\"),\n        }\n    };\n}\n");
 
     // ---- per-world helpers over all archetypes ----
     s.push_str("pub fn dump_all(w: &W) -> Vec<VerifDump> {\n    vec![\n");
-    for ar in &arities {
-        writeln!(s, "        <{} as Arch>::dump(w),", ARCHS[ar - 1].0).unwrap();
+    for x in &specs {
+        writeln!(s, "        <{} as Arch>::dump(w),", x.0).unwrap();
     }
     s.push_str("    ]\n}\n");
 
